@@ -32,7 +32,15 @@ func newLexer(filename string, src io.Reader) *lexer {
 	s := &scanner.Scanner{}
 	s.Init(src)
 	s.Filename = filename
-	return &lexer{s: s}
+
+	l := &lexer{s: s}
+	s.Error = func(s *scanner.Scanner, msg string) {
+		// Record the first lexical error, by default the scanner only prints it to stderr.
+		if l.err == nil {
+			l.err = fmt.Errorf("%v %v", s.Position, msg)
+		}
+	}
+	return l
 }
 
 func setLexerResult(l yyLexer, file *syntax.File) {
